@@ -357,7 +357,17 @@ class Write:
         return 'Write(%s %s @%s)' % (self.kind, self.where(), self.body.short)
 
 
+_FW = {}
+
+
 def field_writes(facts, adt_pat, name, crate=None, include_borrows=True):
+    k = (id(facts), adt_pat, name, crate, include_borrows)
+    if k not in _FW:
+        _FW[k] = _field_writes(facts, adt_pat, name, crate, include_borrows)
+    return list(_FW[k])
+
+
+def _field_writes(facts, adt_pat, name, crate=None, include_borrows=True):
     """P2: sites that write S.f : direct assignment to a place ending in the field (or below it), call
     results stored there, and `&mut` borrows of a place through the field (kind 'mutborrow';
     .call = the call the borrow is passed to, when found in the same block chain)."""
@@ -412,7 +422,17 @@ class Construct:
         return 'Construct(%s::%s @%s %s)' % (short(self.adt), self.variant, self.body.short, self.where())
 
 
+_CN = {}
+
+
 def constructions(facts, adt_pat, variant=None, crate=None):
+    k = (id(facts), adt_pat, variant, crate)
+    if k not in _CN:
+        _CN[k] = _constructions(facts, adt_pat, variant, crate)
+    return list(_CN[k])
+
+
+def _constructions(facts, adt_pat, variant=None, crate=None):
     """P3: aggregate construction sites of an ADT (variant)"""
     res = []
     for b in facts.code_bodies(crate):
